@@ -55,16 +55,16 @@ theorem readGcno_sat (bs : List Nat) :
         cases h4 : skipN 4 r3 with
         | short => trivial
         | crash s => exact absurd h4 (skipN_ne_crash _ _ _)
-        | ok u r4 => exact parseRecs_notCrash _ _ _ _ _
+        | ok u r4 => exact parseRecs_notCrash _ _ _ _ _ _ _
     · simp only [if_neg h90]
       by_cases h80 : version ≥ 80
       · simp only [if_pos h80]
         cases h4 : skipN 4 r2 with
         | short => trivial
         | crash s => exact absurd h4 (skipN_ne_crash _ _ _)
-        | ok u r4 => exact parseRecs_notCrash _ _ _ _ _
+        | ok u r4 => exact parseRecs_notCrash _ _ _ _ _ _ _
       · simp only [if_neg h80]
-        exact parseRecs_notCrash _ _ _ _ _
+        exact parseRecs_notCrash _ _ _ _ _ _ _
 
 /-- **`readGcda` never crashes** and never runs out of fuel, whatever the bytes -/
 theorem readGcda_sat (bs : List Nat) :
